@@ -1,4 +1,5 @@
 import Swat4.Drv.StoreRun
+import Swat4.Model.Prog
 /-!
 Driver side of C11: `C11 hist <item>,… => res=… dump=…`
 
@@ -25,6 +26,17 @@ def specStep (acc : AbsState × Int × List String) (it : String) : Option (AbsS
     | some (.filter fs) => some (a, clock, rs ++ [s!"ok:{renderServers (a.filter fs)}"])
     | some .count => some (a, clock, rs ++ [s!"ok:{a.count}"])
     | some .countby => some (a, clock, rs ++ ["ok:" ++ ",".intercalate (Status.members.map fun b => toString (a.countByStatus b))])
+    -- instance table and probe queue: the specification's step is `Call.exec`, what the use-case programs run
+    | some (.q (.insAdd id ad)) => let r := (Call.insAdd ⟨id, ad⟩).exec a clock
+      some (r.1, clock, rs ++ [match r.2 with | .ok _ => "ok" | .error _ => "err:?"])
+    | some (.q (.insRemove id)) => let r := (Call.insRemove id).exec a clock
+      some (r.1, clock, rs ++ [match r.2 with | .ok _ => "ok" | .error _ => "err:?"])
+    | some (.q (.insClear b)) => let r := (Call.insClear b).exec a clock
+      some (r.1, clock, rs ++ [match r.2 with | .ok n => s!"ok:{n}" | .error _ => "err:?"])
+    | some (.q (.enqueue pr after before)) => let r := (Call.enqueue pr after before).exec a clock
+      some (r.1, clock, rs ++ [match r.2 with | .ok _ => "ok" | .error _ => "err:?"])
+    | some (.q (.popMany n)) => let r := (Call.popMany n).exec a clock
+      some (r.1, clock, rs ++ [match r.2 with | .ok (ps, e) => s!"ok:{e}:{",".intercalate (ps.map renderProbe)}" | .error _ => "err:?"])
     | _ => none
 
 def modelStep (acc : SeqState × List String) (it : String) : Option (SeqState × List String) :=
